@@ -327,6 +327,7 @@ pub fn run(args: &Args, out: &Out) -> i32 {
         "lengths" => misc::lengths(&mut cx, args, &mut rng),
         "weak" => misc::weak(&mut cx, args, &mut rng),
         "names" => misc::names(&mut cx, args, &mut rng),
+        "desrel" => misc::desrel(&mut cx, args, &mut rng),
         "zeroize" => misc::zeroize(&mut cx, args, &mut rng),
         "hazmat" => special::hazmat(&mut cx, args, &mut rng),
         "bcrypt" => special::bcrypt(&mut cx, args, &mut rng),
